@@ -57,7 +57,7 @@ func (r *abort1) StoreBroadcastMessage(msg round.Message) error {
 	}
 
 	for id, deltaProof := range body.DeltaProofs {
-		if !deltaProof.Verify(r.HashForID(from), public, r.DeltaCiphertext[from][id]) {
+		if !deltaProof.Verify(r.HashForID(from), public, r.DeltaCiphertext[id][from]) {
 			return errors.New("failed to validate Delta MtA Nth proof")
 		}
 	}
